@@ -14,8 +14,10 @@ LEVEL_TEXT = ("Theorems in coq/Props/C14.v over Model/Linear.v (chain detection 
               "segment ends joined by dovetails that are the only dovetail on both joined ends; its members were unassigned before, "
               "pairwise different and assigned afterwards; the path of a segment is two such chains glued at the segment; the merged "
               "segment is named after the members in order and its LN is the length of its sequence; reverse complement keeps the "
-              "length and is an involution on the nucleotide alphabet — for graphs and chains of any size. Tie: linear_paths() and "
-              "the merged segment of every returned path (name, sequence, LN, error class) are compared with the model inside Coq. "
+              "length and is an involution on the nucleotide alphabet — for graphs and chains of any size. Tie: linear_paths(), "
+              "the merged segment of every returned path (name, sequence, LN, error class) and the whole graph after "
+              "merge_linear_paths() (merged segments with their tags, re-attached dovetails, cascade over the members; "
+              "merge_path on the reference semantics of the graph) are compared with the model inside Coq. "
               "PARTIAL: maximality of the chains, re-attachment of the outward dovetails, untouched rest, preserved components and "
               "idempotence are decided per generated graph by the independent oracle (spec_linear.py), not proved.")
 RULE = ("GFA1 graphs of 3-9 segments built from 1-3 chain blueprints with mixed orientations and link directions, closed into "
@@ -298,6 +300,26 @@ def case_term(case, paths):
     return '(%s, %s, %s, %s, %s, %s)' % (cstr(case['version']), ops, fts, jts, cstr(shown), clist(ms))
 
 
+def merge_term(case):
+    G = build(case)
+    paths = [[(x.name, x.end_type) for x in p] for p in G.linear_paths()]
+    r = impl.outcome(lambda: G.merge_linear_paths())
+    if r[0] != 'ok':
+        after = 'err:' + exn_str(r[1])
+    else:
+        after = GL.impl_obs(G)
+    ft, jt = [], []
+    for l in case['lines']:
+        a, b = LL.tables_for(l)
+        ft += a
+        jt += b
+    fts = clist(['(%s, %s)' % (cstr(a), cstr(b)) for a, b in ft])
+    jts = clist(['(%s, %s)' % (cstr(a), copt(cstr(b)) if b is not None else 'None') for a, b in jt])
+    ops = clist([GL.op_term(('add', l)) for l in case['lines']])
+    ps = clist([clist(['(%s, %s)' % (cstr(n), cstr(e)) for n, e in p]) for p in paths])
+    return '(%s, %s, %s, %s, %s, %s)' % (cstr(case['version']), ops, fts, jts, ps, cstr(after))
+
+
 def run(ctx, deep, model_ok):
     rng = ctx.rng
     n = 400 if deep else 60
@@ -334,6 +356,27 @@ def run(ctx, deep, model_ok):
             ctx.disagree('Model/Linear.v and gfapy disagree on linear_paths or on a merged segment (model: %s)' % (vals[0][:300] if vals else '?'),
                          metas[i], python=py_of(metas[i]))
         ctx.notes['graphs_compared_in_coq'] = len(terms)
+        # the whole graph after merging
+        mterms, mmetas = [], []
+        for case in metas:
+            try:
+                t = merge_term(case)
+            except ValueError:
+                continue
+            if t is not None:
+                mterms.append(t)
+                mmetas.append(case)
+        failing, errs = core.coq_eval_cases('C14', 'merge', IMPORTS, 'merge_case', 'check_merge', mterms, shard=8)
+        for e in errs:
+            ctx.broken.append(('correspondence-broken', 'merged graphs: ' + e))
+        for i in failing[:3]:
+            vals, _ = core.coq_eval_strings('C14', 'showmerge', IMPORTS, ['show_merge %s' % mterms[i]])
+            G = build(mmetas[i])
+            impl.outcome(lambda: G.merge_linear_paths())
+            a, b = set(GL.impl_obs(G).split('\n')), set((vals[0] if vals else '').split('\n'))
+            ctx.disagree('Model/Linear.v (merge_path) and merge_linear_paths() build different graphs: rows only in impl %r, only in model %r'
+                         % (sorted(a - b)[:3], sorted(b - a)[:3]), mmetas[i], python=py_of(mmetas[i]))
+        ctx.notes['merged_graphs_compared_in_coq'] = len(mterms)
 
 
 def replay(ctx, body):
